@@ -739,19 +739,7 @@ def misc_requests(P, tier):
                             (lambda c=c, t=t, fl=fl: ufl.conditional(c, t, fl)), [t, fl, f, g], hyp="cond",
                             raw=(lambda s, c=c, t=t, fl=fl: G("Conditional", s.cond(c), s.e(t), s.e(fl))),
                             pyraw=(lambda c=c, t=t, fl=fl: raw_node(Conditional, c, t, fl)), info={"cond": c}))
-    # math functions on non-literals, restrictions
-    for nm, fn, tag in [("sin", ufl.sin, "FSin"), ("exp", ufl.exp, "FExp"), ("sqrt", ufl.sqrt, "FSqrt"),
-                        ("ln", ufl.ln, "FLn"), ("cos", ufl.cos, "FCos"), ("tanh", ufl.tanh, "FTanh")]:
-        for na, a in [("f", f), ("fg", P.fg), ("v0", v[0])]:
-            reqs.append(Req("math", f"{nm}({na})", (lambda fn=fn, a=a: fn(a)), [a],
-                            raw=(lambda s, tag=tag, a=a: G("Math", tag, s.e(a))),
-                            pyraw=(lambda nm=nm, a=a: raw_node(getattr(C, nm.capitalize()), a))))
-        for x in (2.5, 1, 0):
-            if nm == "ln" and x == 0:
-                continue
-            reqs.append(Req("math", f"{nm}({x})", (lambda fn=fn, x=x: as_ufl(fn(x))), [as_ufl(x)], value=False,
-                            raw=(lambda s, tag=tag, x=x: G("Math", tag, s.e(as_ufl(x)))),
-                            pyraw=(lambda: None), info={"math_literal": (nm, x)}))
+    # restrictions (math functions: mathfold_requests)
     for na, a in [("f", f), ("v", v), ("vi", P.vi)]:
         for sd, bl in (("+", "true"), ("-", "false")):
             reqs.append(Req("restricted", f"{na}('{sd}')", (lambda a=a, sd=sd: a(sd)), [a],
@@ -850,6 +838,109 @@ def tensoralgebra_requests(P, tier):
     return reqs
 
 
+def mathfold_requests(P, tier):
+    """Math functions (unary, atan2, bessel, min/max, sign, elementwise ops).  On symbolic operands the raw
+    request is the function node; on literal operands the constructors fold with Python's math/cmath, which
+    is floating point and cannot be proved in an abstract algebra: EVERY such fold is validated against the
+    reference function on a grid of literals (incl. zero and negative arguments, both arguments of two-argument
+    functions); where the reference is undefined (math domain error) the constructor must raise as well."""
+    import cmath
+    import math
+    reqs = []
+    f, g, v, w = P.f, P.g, P.v, P.w
+    unary = [("sqrt", ufl.sqrt, C.Sqrt, "FSqrt"), ("exp", ufl.exp, C.Exp, "FExp"), ("ln", ufl.ln, C.Ln, "FLn"),
+             ("cos", ufl.cos, C.Cos, "FCos"), ("sin", ufl.sin, C.Sin, "FSin"), ("tan", ufl.tan, C.Tan, "FTan"),
+             ("cosh", ufl.cosh, C.Cosh, "FCosh"), ("sinh", ufl.sinh, C.Sinh, "FSinh"),
+             ("tanh", ufl.tanh, C.Tanh, "FTanh"), ("acos", ufl.acos, C.Acos, "FAcos"),
+             ("asin", ufl.asin, C.Asin, "FAsin"), ("atan", ufl.atan, C.Atan, "FAtan"), ("erf", ufl.erf, C.Erf, "FErf")]
+    greal = [0, 1, -1, 2, -2, 3, 0.5, -0.5, 2.5, -2.5, 1.0, 10, 0.001]
+    gcplx = [1 + 2j, -1 - 0.5j, 2j]
+
+    def ref1(nm, x):
+        fn = {"ln": "log"}.get(nm, nm)
+        if isinstance(x, complex):
+            return getattr(cmath, fn)(x)
+        try:
+            return getattr(math, fn)(float(x))
+        except ValueError:
+            if nm == "sqrt":
+                return cmath.sqrt(x)
+            raise
+
+    for nm, fn, cls, tag in unary:
+        for na, a in [("f", f), ("fg", P.fg), ("v0", v[0]), ("f+g", P.fpg)]:
+            for via, th in (("", (lambda fn=fn, a=a: fn(a))), (".cls", (lambda cls=cls, a=a: cls(a)))):
+                reqs.append(Req("math", f"{nm}{via}({na})", th, [a],
+                                raw=(lambda s, tag=tag, a=a: G("Math", tag, s.e(a))),
+                                pyraw=(lambda cls=cls, a=a: raw_node(cls, a))))
+        for na, a in [("v", v), ("vi", P.vi)]:
+            reqs.append(Req("math", f"{nm}({na})", (lambda fn=fn, a=a: fn(a)), [a], must_raise=True))
+        for x in greal + gcplx:
+            if nm == "erf" and isinstance(x, complex):
+                continue        # no reference function (and the constructor rejects it)
+            try:
+                ref = complex(ref1(nm, x))
+                bad = False
+            except (ValueError, OverflowError, ZeroDivisionError):
+                ref, bad = None, True
+            ux = as_ufl(x)
+            for via, th in (("", (lambda fn=fn, x=x: as_ufl(fn(x)))), (".cls", (lambda cls=cls, ux=ux: as_ufl(cls(ux))))):
+                reqs.append(Req("mathfold", f"{nm}{via}({x})", th, [ux], value=False, must_raise=bad,
+                                raw=(lambda s, tag=tag, ux=ux: G("Math", tag, s.e(ux))),
+                                info={"fold_ref": ref}))
+    # atan2
+    g2 = [0, 1, -1, 2, -2.5, 0.5, -0.5, 3]
+    for y, x in itertools.product(g2, repeat=2):
+        ref = complex(math.atan2(float(y), float(x)))
+        uy, ux = as_ufl(y), as_ufl(x)
+        for via, th in (("", (lambda y=y, x=x: as_ufl(ufl.atan2(y, x)))),
+                        (".cls", (lambda uy=uy, ux=ux: as_ufl(C.Atan2(uy, ux))))):
+            reqs.append(Req("mathfold", f"atan2{via}({y}, {x})", th, [uy, ux], value=False,
+                            raw=(lambda s, uy=uy, ux=ux: G("Atan2", s.e(uy), s.e(ux))), info={"fold_ref": ref}))
+    for (na, a), (nb, b) in [(("f", f), ("g", g)), (("f", f), ("2", 2)), (("m1", -1), ("f", f)), (("0", 0), ("f", f)),
+                             (("fg", P.fg), ("m2p5", -2.5)), (("f", f), ("0", 0)), (("v0", v[0]), ("w1", w[1]))]:
+        ua, ub = as_ufl(a), as_ufl(b)
+        reqs.append(Req("math", f"atan2({na}, {nb})", (lambda a=a, b=b: ufl.atan2(a, b)), [ua, ub],
+                        raw=(lambda s, ua=ua, ub=ub: G("Atan2", s.e(ua), s.e(ub))),
+                        pyraw=(lambda ua=ua, ub=ub: raw_node(C.Atan2, ua, ub))))
+    for (na, a), (nb, b) in [(("cplx", 1 + 2j), ("f", f)), (("f", f), ("cplx", 1 + 2j)), (("v", v), ("f", f)),
+                             (("f", f), ("vi", P.vi))]:
+        reqs.append(Req("math", f"atan2({na}, {nb})", (lambda a=a, b=b: ufl.atan2(a, b)), [as_ufl(a), as_ufl(b)],
+                        must_raise=True))
+    # bessel functions, min/max, sign
+    for nm, fn, tag in [("bessel_J", ufl.bessel_J, "BJ"), ("bessel_Y", ufl.bessel_Y, "BY"),
+                        ("bessel_I", ufl.bessel_I, "BI"), ("bessel_K", ufl.bessel_K, "BK")]:
+        for nu, (na, a) in itertools.product((0, 1, 2), [("f", f), ("fg", P.fg)]):
+            reqs.append(Req("math", f"{nm}({nu}, {na})", (lambda fn=fn, nu=nu, a=a: fn(nu, a)), [as_ufl(nu), a],
+                            raw=(lambda s, tag=tag, nu=nu, a=a: G("Bessel", tag, s.e(as_ufl(nu)), s.e(a)))))
+    for nm, fn, node, cls in [("max_value", ufl.max_value, "MaxV", C.MaxValue), ("min_value", ufl.min_value, "MinV", C.MinValue)]:
+        for (na, a), (nb, b) in [(("f", f), ("g", g)), (("f", f), ("2", 2)), (("0", 0), ("f", f)), (("1", 1), ("2", 2)),
+                                 (("fg", P.fg), ("m1", -1))]:
+            ua, ub = as_ufl(a), as_ufl(b)
+            reqs.append(Req("math", f"{nm}({na}, {nb})", (lambda fn=fn, a=a, b=b: fn(a, b)), [ua, ub],
+                            raw=(lambda s, node=node, ua=ua, ub=ub: G(node, s.e(ua), s.e(ub))),
+                            pyraw=(lambda cls=cls, ua=ua, ub=ub: raw_node(cls, ua, ub))))
+        reqs.append(Req("math", f"{nm}(v, f)", (lambda fn=fn: fn(v, f)), [v, f], must_raise=True))
+    zero, m1, one = as_ufl(0), as_ufl(-1), as_ufl(1)
+    for na, a in [("f", f), ("fg", P.fg), ("v0", v[0])]:
+        reqs.append(Req("math", f"sign({na})", (lambda a=a: ufl.sign(a)), [a], hyp="cond",
+                        raw=(lambda s, a=a: G("Conditional", G("Cmp", "CEQ", s.e(a), s.e(zero)), s.e(zero),
+                                              G("Conditional", G("Cmp", "CLT", s.e(a), s.e(zero)), s.e(m1), s.e(one)))),
+                        pyraw=(lambda a=a: raw_node(Conditional, ufl.eq(a, 0), zero,
+                                                    raw_node(Conditional, ufl.lt(a, 0), m1, one)))))
+    # elementwise operators
+    for nm, fn, node, cls in [("elem_mult", ufl.elem_mult, "Product", Product), ("elem_div", ufl.elem_div, "Division", Division),
+                              ("elem_pow", ufl.elem_pow, "Power", Power)]:
+        for (na, a), (nb, b) in [(("v", v), ("w", w)), (("M", P.M), ("M2", P.M2)), (("LT1", P.LT1), ("v", v))]:
+            reqs.append(Req("elem", f"{nm}({na}, {nb})", (lambda fn=fn, a=a, b=b: fn(a, b)), [a, b],
+                            exp_shape=a.ufl_shape, exp_fi={}, hyp=("power" if nm == "elem_pow" else "division"),
+                            craw=(lambda s, c, node=node, a=a, b=b: G(node, G("Indexed", s.e(a), s.mi(c)),
+                                                                      G("Indexed", s.e(b), s.mi(c)))),
+                            pycraw=(lambda c, cls=cls, a=a, b=b: raw_node(cls, raw_node(Indexed, a, mi_of(c)),
+                                                                          raw_node(Indexed, b, mi_of(c))))))
+    return reqs
+
+
 def hot(req):
     """requests that reach a folding branch (zero / literal operands, nested shortcuts): always kept"""
     if req.group == "getitem" and isinstance(req.operands[0], (C.Identity, C.PermutationSymbol)):
@@ -859,7 +950,7 @@ def hot(req):
     return any(isinstance(o, (Zero, C.ScalarValue)) for o in req.operands) or req.group in (
         "ListTensor", "IndexSum", "Indexed", "conditional", "Abs", "Conj", "Real", "Imag", "as_vector", "as_matrix",
         "div", "neg", "sub", "transpose", "pow", "math", "restricted", "perp", "tr", "det", "inv", "cofac", "dev",
-        "skew", "sym", "diag", "diag_vector", "cross")
+        "skew", "sym", "diag", "diag_vector", "cross", "mathfold", "elem")
 
 
 def all_requests(tier, rng, groups=None, seed=0):
@@ -890,4 +981,5 @@ def _all_requests(P, tier, rng):
     reqs += getitem_requests(P, tier, rng)
     reqs += misc_requests(P, tier)
     reqs += tensoralgebra_requests(P, tier)
+    reqs += mathfold_requests(P, tier)
     return reqs
